@@ -475,6 +475,7 @@ pub fn new_instance(h: &History, scratch: &Scratch) -> Instance {
         run_tests: h.run_tests,
         run_import_tests: true,
         execution_limit_ns: if h.with_limit { Some(LIMIT_NS) } else { None },
+        builder_order_seed: h.ops.len() as u64,
     });
     let ts: SharedTick = Default::default();
     add_sim_natives(&host, &ts);
